@@ -3,11 +3,13 @@ package vgirpc
 import (
 	"context"
 	"errors"
+	"io"
 	"net/http"
 
 	"github.com/apache/arrow-go/v18/arrow"
 	"github.com/apache/arrow-go/v18/arrow/ipc"
 	"github.com/apache/arrow-go/v18/arrow/memory"
+	"github.com/klauspost/compress/zstd"
 )
 
 //verif:quote approx
@@ -196,4 +198,122 @@ func verifH_C30_externalize_decision() {
 	} else {
 		verifAssert(verifC30Uploads == 0 && out == arrow.RecordBatch(b) && raw == 0, "below the threshold, with zero rows or without storage the batch is unchanged")
 	}
+}
+
+// ---- compression: what is uploaded must be what its label says ----
+
+var (
+	verifC30EncLen  int    // length class of the ideal encoder's output: 0 shorter, 1 equal, 2 longer than the input
+	verifC30StoreCE string // Content-Encoding the store recorded with the object
+	verifC30Levels  []int
+)
+
+type verifC30Store struct{}
+
+func (verifC30Store) Upload(data []byte, schema *arrow.Schema, contentEncoding string) (string, error) {
+	verifC30Uploads++
+	verifC30Uploaded = append([]byte(nil), data...)
+	verifC30StoreCE = contentEncoding
+	return "https://store/obj", nil
+}
+
+func verifC30NewWriter(w io.Writer, opts ...zstd.EOption) (*zstd.Encoder, error) {
+	return &zstd.Encoder{}, nil
+}
+func verifC30WithLevel(l zstd.EncoderLevel) zstd.EOption {
+	verifC30Levels = append(verifC30Levels, int(l))
+	return nil
+}
+func verifC30EncClose(e *zstd.Encoder) error { return nil }
+
+// ideal codec: Enc("Fpayload") is a 'Z'-marked word that is shorter than, as long
+// as, or longer than its input (high-entropy data does not shrink); Dec accepts
+// only 'Z'-marked words and yields the payload back
+func verifC30EncodeAll(e *zstd.Encoder, src, dst []byte) []byte {
+	verifAssert(string(src) == "Fpayload", "the encoder is fed the raw IPC bytes")
+	out := []string{"Zp", "Zpayload", "Zpayload++"}[verifC30EncLen]
+	return append(dst, out...)
+}
+
+// the object store + HTTP client: the body comes back under the Content-Encoding
+// it was uploaded with, and the client decodes what that label says
+func verifC30FetchStore(client *http.Client, rawURL string, validator func(string) error, maxFetch, maxDecomp int64, maxRedirects int) ([]byte, error) {
+	verifC30Fetches++
+	data := verifC30Uploaded
+	if verifC30StoreCE == "zstd" {
+		if len(data) == 0 || data[0] != 'Z' {
+			return nil, errors.New("decompressing zstd data: magic number mismatch")
+		}
+		return []byte("Fpayload"), nil
+	}
+	return data, nil
+}
+
+func verifC30SumByContent(data []byte) [32]byte {
+	var d [32]byte
+	d[0] = 7
+	if string(data) == "Fpayload" {
+		d[0] = 9
+	}
+	return d
+}
+
+// A batch externalized with or without compression resolves to the original.
+//
+//verif:use ipc
+//verif:stub github.com/Query-farm/vgi-rpc-go/vgirpc.serializeBatchAsIPC = verifC30SerializeBatch
+//verif:stub github.com/Query-farm/vgi-rpc-go/vgirpc.fetchExternalData = verifC30FetchStore
+//verif:stub crypto/sha256.Sum256 = verifC30SumByContent
+//verif:stub github.com/Query-farm/vgi-rpc-go/vgirpc.countExternalizedBytes = verifC30Count
+//verif:stub github.com/apache/arrow-go/v18/arrow/ipc.WithAllocator = verifC30WithAllocator
+//verif:stub github.com/klauspost/compress/zstd.NewWriter = verifC30NewWriter
+//verif:stub github.com/klauspost/compress/zstd.WithEncoderLevel = verifC30WithLevel
+//verif:stub (*github.com/klauspost/compress/zstd.Encoder).EncodeAll = verifC30EncodeAll
+//verif:stub (*github.com/klauspost/compress/zstd.Encoder).Close = verifC30EncClose
+//verif:stub time.Now = verifFixedNow
+//verif:bound one batch at or above the threshold through externalizeBatchCtx and back through ResolveExternalLocation; compression absent, zstd (level unset or 1..22) or an unknown algorithm; the codec is an IDEAL one whose output is shorter than, as long as, or longer than the raw IPC bytes (incompressible data) and whose decoder accepts only encoder output; the store returns the object under the Content-Encoding it was uploaded with; serialisation is a fixed 8-byte payload, SHA-256 an ideal digest by content; byte-level zstd losslessness and the HTTP fetch are outside the claim
+func verifH_C30_compressed_roundtrip() {
+	verifResetIPC()
+	verifC30Uploads, verifC30Fetches, verifC30Uploaded, verifC30StoreCE, verifC30Levels = 0, 0, nil, "", nil
+	verifC30EncLen = verifChoice("encoded_length", 3)
+	cfg := &ExternalLocationConfig{ExternalizeThresholdBytes: 4, Storage: verifC30Store{}, MaxRetries: 1}
+	mode := verifChoice("compression", 3)
+	level := 0
+	switch mode {
+	case 1:
+		if verifNondetBool("level.set") {
+			level = verifNondetInt("level")
+			verifAssume(level >= 1 && level <= 22)
+		}
+		cfg.Compression = &Compression{Algorithm: "zstd", Level: level}
+	case 2:
+		cfg.Compression = &Compression{Algorithm: "lz4"}
+	}
+	b := verifNewBatch(verifDataSchema, 1, 5, nil, nil)
+	b.size = 64
+	ptr, meta, raw, err := externalizeBatchCtx(context.Background(), b, arrow.Metadata{}, cfg)
+	verifReach("externalized")
+	verifAssert(err == nil && verifC30Uploads == 1 && raw == 8, "the batch is uploaded once and charged its raw IPC size")
+	if err != nil {
+		return
+	}
+	if mode == 1 {
+		verifReach("compressed")
+		verifAssert(verifC30StoreCE == "zstd" && len(verifC30Uploaded) > 0 && verifC30Uploaded[0] == 'Z', "with zstd configured the encoder's output is uploaded, labelled zstd")
+		if level > 0 {
+			verifAssert(len(verifC30Levels) == 1 && verifC30Levels[0] == level, "the configured level reaches the encoder")
+		}
+	} else {
+		verifAssert(verifC30StoreCE == "" && string(verifC30Uploaded) == "Fpayload", "without (known) compression the raw IPC bytes are uploaded, unlabelled")
+	}
+	sha, _ := metaGet(meta, MetaLocationSHA256)
+	verifAssert(sha == verifC30Hex(9), "the checksum is that of the raw IPC bytes, compressed or not")
+	// and back
+	verifFetchedStream = &verifInStream{schema: verifDataSchema, failAt: -1, batches: []*verifBatch{verifNewBatch(verifDataSchema, 1, 5, nil, nil)}}
+	pb := ptr.(*verifBatch)
+	pb.meta, pb.hasMeta = meta, true
+	out, _, rerr := ResolveExternalLocation(pb, meta, cfg)
+	verifReach("resolved-back")
+	ob, ok := out.(*verifBatch)
+	verifAssert(rerr == nil && ok && ob.tag == 5 && ob.rows == 1, "the externalized batch resolves to the uploaded data, whatever the codec did to its size")
 }
